@@ -240,6 +240,12 @@ func (s *StateMachine) CheckSignature(tx *lib.Transaction, authorizedSigners [][
 	if e != nil {
 		return nil, ErrInvalidPublicKey(e)
 	}
+	// the signature does not cover the public key field: only the canonical encoding of a key is accepted, otherwise
+	// an alternative encoding of the same key (ex. the 0x04 prefixed form of an Ethereum key) gives an included
+	// transaction a second hash and lets anyone replay it
+	if !bytes.Equal(publicKey.Bytes(), tx.Signature.PublicKey) {
+		return nil, ErrInvalidPublicKey(fmt.Errorf("non-canonical public key encoding"))
+	}
 	// Legacy "RLP" was historically an ordinary memo for non-Ethereum keys.
 	// RLP.V2 is reserved and always requires an Ethereum key.
 	_, hasEthPubKey := publicKey.(*crypto.ETHSECP256K1PublicKey)
